@@ -262,6 +262,15 @@ func (w *World) checkC11(pre, post views, e Event, pkt *Packet) {
 				if v.Left && !w.leftCalled[x] {
 					w.violate("C11", "left-origin", "left-declared-by-other", "%s marks %s left although it never left", nd.ID, id)
 				}
+			}
+			// seen as left by every node that learns of it: an observer that
+			// has caught up with everything the leaver published sees it as left
+			if w.leftCalled[x] && !v.Left {
+				if owner := w.nodes[x].State.LocalNode(); owner.Left && v.Version == owner.Version {
+					w.violate("C11", "left-seen", "caught-up-with-leaver-but-not-left", "%s has caught up with %s (version %d), which left, but does not see it as left", nd.ID, id, v.Version)
+				}
+			}
+			if p != nil {
 				continue
 			}
 			// newly learned: judged below from the message that taught it
